@@ -510,20 +510,25 @@ def instances(tier):
         out.append(gaussian_fit_instance(ct, (), 3, 2, False))
         out.append(gaussian_fit_instance(ct, (), 3, 2, True))
         out.append(gaussian_fit_instance(ct, (2,), 3, 2, True))
+        out.append(gaussian_fit_instance(ct, (2,), 3, 2, False))
         out.append(gaussian_fit_instance(ct, (), 2, 1, True))
         out.append(gaussian_fit_instance(ct, (), 3, 2, True, repeat=(1, 2, 3)))
     out.append(ccsg_fit_instance((), 3, 2, False))
     out.append(ccsg_fit_instance((), 3, 2, True))
     out.append(ccsg_fit_instance((2,), 2, 2, True))
+    out.append(ccsg_fit_instance((2,), 2, 2, False))
     out.append(vmf_fit_instance((), 3, 2, False))
     out.append(vmf_fit_instance((), 3, 2, True))
     out.append(vmf_fit_instance((2,), 2, 3, True))
+    out.append(vmf_fit_instance((2,), 2, 3, False))
     out.append(watson_fit_instance((), 3, 2, False))
     out.append(watson_fit_instance((), 3, 2, True))
     out.append(watson_fit_instance((2,), 2, 2, True))
+    out.append(watson_fit_instance((2,), 2, 2, False))
     out.append(cacg_fit_instance((), 3, 2, False))
     out.append(cacg_fit_instance((), 3, 2, True))
     out.append(cacg_fit_instance((2,), 2, 2, True))
+    out.append(cacg_fit_instance((2,), 2, 2, False))
     out.append(cacg_fit_instance((), 3, 2, True, cov_norm='trace'))
     out.append(cacg_fit_instance((), 3, 2, True, cov_norm=False, hermitize=False))
     for kind in ('cacgmm', 'cwmm', 'gmm', 'vmfmm'):
